@@ -218,6 +218,21 @@ CHECKS = {
             "sampled, not exhaustive: a clean run says nothing about inputs not generated",
         ],
     },
+    "C18": {
+        "engines": lambda tier: [{"engine": "c18", "shards": 16, "args": {"sequences": 1200 if tier == "thorough" else 50}}],
+        "level": "exploration",
+        "rule": "case = one random sequence of 8-38 operations on the real WTClient + client DBM over 2-4 towers sharing 3-6 locators: register / renew (incl. "
+                "renewals that do not strictly extend), receipt, pending, invalid, pending->accepted, pending->invalid (in the retrier's order), misbehaviour proof, "
+                "abandon, in-memory status changes. After EVERY prefix: WTClient.towers == DBM::load_towers() == dictionary model; load_tower_record per tower == model "
+                "(receipts, pending and invalid bodies byte for byte, proof); after abandon no row of any table references the tower and every other tower's rows are "
+                "unchanged; every referenced appointment body is stored; a second client opened on a copy of the directory shows the same towers, the same user id, the "
+                "status rule (proof => misbehaving, pending => temporary unreachable, else reachable) and queues exactly the towers with pending data for retry. "
+                "distinct = distinct operation sequences.",
+        "assumptions": [
+            "operations the real plugin never performs (a second receipt / pending / invalid record for the same tower and locator) are not generated here: duplicate notifications are C05's business",
+            "appointment bodies left without any referrer after an abandon are counted and reported, not judged (the statement does not require their deletion)",
+        ],
+    },
     "C19": {
         "engines": _c19,
         "level": "exploration",
